@@ -1,5 +1,6 @@
 import Tea.Props.C06
 import Tea.Proofs.Quit
+import Tea.Proofs.Kill
 /-
 C07 — On quit the final model's view is on screen, whatever the timing.
 
@@ -30,11 +31,19 @@ invariant holds after a stop (`C07_stop_inv`) and the second stop paints every l
 view in place (`C07_quit_released`); the concrete runs of section 5 show the final view losing a
 line with the `stop` that left the caches valid.
 
+A Kill that loses the race to a quit (section 4b): `Program.Kill` calls the renderer's `kill` — EL2
+and CR with NO flush — and Run's own shutdown may still do the final `write` and `stop` afterwards.
+`kill` invalidates the caches like `stop` does (`standardRenderer.kill` calls `repaint`), so the
+inline invariant holds after a kill (`C07_kill_inv`) and Run's `stop` paints every line of the final
+view in place (`C07_quit_after_kill`); the last concrete run of section 5 shows the final view losing
+the line of the erased cursor row with the `kill` that left the caches valid.
+
 Limits: the theorems are about the inline (main screen) renderer with no printed lines queued;
 on the alt screen `shutdown` leaves the alt screen right after `stop`, so what remains visible
 is the restored main screen (C12).  Whether the bytes reach the terminal before Run returns
 is the lifecycle part (C04: `shRenderer` precedes `shRestore` precedes `runReturn`).
-Only property theorems live here; helper lemmas are in `Tea/Proofs/Quit.lean`.
+Only property theorems live here; helper lemmas are in `Tea/Proofs/Quit.lean` and
+`Tea/Proofs/Kill.lean`.
 -/
 namespace Tea.Props.C07
 open Tea Tea.VT Tea.Render
@@ -373,6 +382,129 @@ theorem C07_quit_released_terminated (r : RState) (t : Term) (hinv : InlineInv r
   rw [a10] at c3
   exact ⟨c2, c3, c4, c5, c6⟩
 
+/-! ### 4b. a Kill loses the race to a quit (Run's `stop` after a `kill`) -/
+
+/-- **AFTER `kill` THE RENDERER AND THE TERMINAL AGREE AGAIN.**  `Program.Kill` kills the renderer:
+EL2, CR, caches invalidated — and NO flush.  From the inline invariant (printed lines may be queued,
+a view may be pending: neither is touched), after `kill`: the inline invariant HOLDS AGAIN; the
+pending view `buf` and the queued lines are as they were — nothing was flushed —; both caches are
+invalid (`lastRender = []`, `lastLines = none`), so the next flush of any view can skip no line;
+`linesRendered`, the size, the window (`top`) and the cursor row are unchanged, hence the view still
+starts at `viewTop r t` and the cursor is on the last of the `max linesRendered 1` view rows, in
+column 0 with no pending wrap; that row is blank; EVERY other tape row — above the view, in the view,
+below it — is untouched, and so are the alt screen and the size.
+
+The difference from `C07_stop_inv`: the terminal does NOT show the pending view.  It shows the view
+rendered LAST minus its cursor row: if `ls` was the line cache before the kill (the frame the last
+flush painted, `ls.length = linesRendered`), every line `ls[i]` with `i + 1 < ls.length` is still on
+row `viewTop r t + i`; the last one, `ls[ls.length - 1]`, was on the cursor row and is erased.  (With
+the caches left valid, as before the repair, the invariant would be false here: the cache would
+claim that the erased row still shows its line.) -/
+theorem C07_kill_inv (r : RState) (t : Term) (hinv : InlineInv r t)
+    (r1 : RState) (t1 : Term) (hr1 : r1 = (kill r).1) (ht1 : t1 = applyOps t (kill r).2) :
+    InlineInv r1 t1 ∧ r1.queued = r.queued ∧ r1.buf = r.buf ∧
+    r1.lastRender = [] ∧ r1.lastLines = none ∧
+    r1.linesRendered = r.linesRendered ∧ r1.height = r.height ∧ r1.width = r.width ∧
+    viewTop r1 t1 = viewTop r t ∧ t1.alt = t.alt ∧ t1.w = t.w ∧ t1.h = t.h ∧
+    t1.main.top = t.main.top ∧ t1.main.cr = t.main.cr ∧
+    t1.main.cr + 1 = viewTop r t + max r1.linesRendered 1 ∧
+    t1.main.cc = 0 ∧ t1.main.pw = false ∧
+    t1.main.row t.w t1.main.cr = List.replicate t.w 32 ∧
+    (∀ ρ, ρ ≠ t.main.cr → ∀ c, t1.main.cells ρ c = t.main.cells ρ c) ∧
+    (∀ ρ, ρ < viewTop r t → ∀ c, t1.main.cells ρ c = t.main.cells ρ c) ∧
+    (∀ ls, r.lastLines = some ls → ls.length = r.linesRendered ∧
+      ∀ i l, i + 1 < ls.length → ls[i]? = some l →
+        t1.main.row t.w (viewTop r t + i) = padLine t.w (Ansi.visible l)) := by
+  obtain ⟨a1, a2, a3, a4, a5, a6, a7, a8, a9, a10, a11, a12, a13, a14, a15, a16, a17, a18, a19,
+    a20⟩ := inline_kill_inv r t hinv r1 t1 hr1 ht1
+  refine ⟨a1, a2, a3, a4, a5, a6, a7, a8, a9, a10, a11, a12, a13, a14, by rw [a6]; exact a15,
+    a16, a17, (rowBlank_iff_row _ _ _).1 a18, a19, ?_, ?_⟩
+  · intro ρ hρ c
+    have := hinv.inside.1
+    exact a19 ρ (by unfold viewTop at hρ; omega) c
+  · intro ls hls
+    obtain ⟨b1, b2⟩ := a20 ls hls
+    exact ⟨b1, fun i l hi hl => (rowShows_iff_row _ _ _ _).1 (b2 i l hi hl)⟩
+
+/-- **A KILL LOSES THE RACE TO A QUIT.**  From the inline invariant with no printed lines queued:
+`kill` (`Program.Kill`: erase the cursor line, NO flush) gives `r1`, `t1`; the event loop has already
+ended by a quit, and Run's own shutdown still does `write r1 s` and `stop`.  With `ls` the frame of
+the final view `s` (`n` lines, `1 ≤ n ≤ h`) and `R0 = viewTop r t` the tape row where the view
+started before the kill:
+
+(o) the stop's flush prints EVERY line of the frame (cut at the width) — no line is skipped as
+    "unchanged", in particular not the line of the cursor row that the kill erased: the caches are
+    invalid after the kill;
+(a) every newline-terminated line is in place: for `i + 1 < n`, row `R0 + i` shows `ls[i]` (its
+    visible part) cut at the width and padded with blanks — from the SAME first view row;
+(b) the cursor is on row `R0 + n - 1`, in column 0 with no pending wrap;
+(c) that row is blank (EL2 erased the unterminated last line, if there was one);
+(d) every window row below the cursor is blank: nothing stale of the view shown before the kill
+    remains;
+(e) every row above `R0` is as it was before the kill; the window scrolled, from where the kill
+    left it (which is where it was: `t1.main.top = t.main.top`), by exactly what the view needed;
+    the alt screen and the size are untouched.
+
+This is `C07_quit_inline` for a `stop` after a `kill`; it rests on `C07_kill_inv`. -/
+theorem C07_quit_after_kill (r : RState) (t : Term) (hinv : InlineInv r t) (hq : r.queued = [])
+    (s : Bytes) (r1 : RState) (t1 t' : Term)
+    (hr1 : r1 = (kill r).1) (ht1 : t1 = applyOps t (kill r).2)
+    (ht' : t' = applyOps t1 (stop (write r1 s)).2) :
+    frameLines (write r1 s) = frameLines (write r s) ∧
+    (∀ l, l ∈ frameLines (write r s) →
+      TermOp.text (if r.width > 0 then truncateLine r.width l else l) ∈ (stop (write r1 s)).2) ∧
+    1 ≤ (frameLines (write r s)).length ∧ (frameLines (write r s)).length ≤ t.h ∧
+    (∀ i l, i + 1 < (frameLines (write r s)).length → (frameLines (write r s))[i]? = some l →
+      t'.main.row t.w (viewTop r t + i) = padLine t.w (Ansi.visible l)) ∧
+    t'.main.cr + 1 = viewTop r t + (frameLines (write r s)).length ∧
+    t'.main.cc = 0 ∧ t'.main.pw = false ∧
+    t'.main.row t.w t'.main.cr = List.replicate t.w 32 ∧
+    (∀ ρ, t'.main.cr < ρ → ρ < t'.main.top + t.h → t'.main.row t.w ρ = List.replicate t.w 32) ∧
+    (∀ ρ, ρ < viewTop r t → ∀ c, t'.main.cells ρ c = t.main.cells ρ c) ∧
+    t'.main.top = max t1.main.top (viewTop r t + (frameLines (write r s)).length - t.h) ∧
+    t1.main.top = t.main.top ∧
+    t'.alt = t.alt ∧ t'.w = t.w ∧ t'.h = t.h ∧ t'.onAlt = false := by
+  obtain ⟨a1, a2, _, a4, a5, _, a7, a8, a9, a10, a11, a12, a13, _, _, _, _, _, _, a20, _⟩ :=
+    C07_kill_inv r t hinv r1 t1 hr1 ht1
+  rw [hq] at a2
+  obtain ⟨c1, c2, c3, c4, c5, c6, c7, c8, c9, c10, c11, c12, c13, c14⟩ :=
+    C07_quit_inline r1 t1 a1 a2 s t' ht'
+  have hf : frameLines (write r1 s) = frameLines (write r s) := frameLines_write_congr r r1 s a7
+  rw [hf] at c1 c2 c3 c4 c10
+  rw [a9] at c3 c4 c9 c10
+  rw [a11] at c3 c7 c8 c12
+  rw [a12] at c2 c8 c10 c13
+  refine ⟨hf, ?_, c1, c2, c3, c4, c5, c6, c7, c8, ?_, c10, a13, by rw [c11, a10], c12, c13, c14⟩
+  · intro l hl
+    rw [stop_ops]
+    apply List.mem_append_left
+    have := flush_prints_all (write r1 s) (write_buf_ne r1 s) a4 a5 l (by rw [hf]; exact hl)
+    rw [← a8]
+    exact this
+  · intro ρ hρ c
+    rw [c9 ρ hρ c, a20 ρ hρ c]
+
+/-- ... and a view that ends with a newline is on screen completely after a `kill` and Run's `stop`
+too: every frame line — the blank last one included — is on its row, from the same first view row. -/
+theorem C07_quit_after_kill_terminated (r : RState) (t : Term) (hinv : InlineInv r t)
+    (hq : r.queued = []) (v : Bytes) (r1 : RState) (t1 t' : Term)
+    (hr1 : r1 = (kill r).1) (ht1 : t1 = applyOps t (kill r).2)
+    (ht' : t' = applyOps t1 (stop (write r1 (v ++ [10]))).2) :
+    (frameLines (write r (v ++ [10]))).getLast? = some [] ∧
+    (∀ i l, (frameLines (write r (v ++ [10])))[i]? = some l →
+      t'.main.row t.w (viewTop r t + i) = padLine t.w (Ansi.visible l)) ∧
+    t'.main.cr + 1 = viewTop r t + (frameLines (write r (v ++ [10]))).length ∧
+    t'.main.cc = 0 ∧ t'.main.pw = false := by
+  obtain ⟨a1, a2, _, _, _, _, a7, _, a9, _, a11, _⟩ := C07_kill_inv r t hinv r1 t1 hr1 ht1
+  rw [hq] at a2
+  obtain ⟨_, c2, c3, c4, c5, c6⟩ := C07_quit_inline_terminated r1 t1 a1 a2 v t' ht'
+  have hf : frameLines (write r1 (v ++ [10])) = frameLines (write r (v ++ [10])) :=
+    frameLines_write_congr r r1 _ a7
+  rw [hf] at c2 c3 c4
+  rw [a9] at c3 c4
+  rw [a11] at c3
+  exact ⟨c2, c3, c4, c5, c6⟩
+
 /-! ### 5. concrete runs (non-vacuity), W = 10, H = 5, inline, cursor on window row 0 -/
 
 def r0 : RState := { width := 10, height := 5 }
@@ -517,5 +649,74 @@ example :
     (let rt := renderViews r0 t0 [[97,10,98,10,99]]
      (stopOld (write (stopOld rt.1).1 [97,10,98,10,99,10,100])).2 =
        [.cuu 2, .lf, .lf, .lf, .text [100], .el0, .cub 10, .el2, .cr]) := by decide
+
+/-! #### killed, then quit -/
+
+/-- the terminal after: the view `a` rendered (write + flush), `kill` (Program.Kill lost the race
+to a quit), then Run's final `write b` and `stop` -/
+def quitKilled (a b : Bytes) : Term :=
+  let rt := renderViews r0 t0 [a]
+  let r1 := (kill rt.1).1
+  let t1 := applyOps rt.2 (kill rt.1).2
+  applyOps t1 (stop (write r1 b)).2
+
+set_option maxRecDepth 100000 in
+/-- after the kill (view "aaa\nbbb\nccc" rendered, then killed): rows "aaa", "bbb", the cursor row
+(where "ccc" was) blank, cursor at its column 0; the renderer still counts 3 lines, caches invalid -/
+example :
+    let rt := renderViews r0 t0 [[97,97,97,10,98,98,98,10,99,99,99]]
+    let r1 := (kill rt.1).1
+    let t1 := applyOps rt.2 (kill rt.1).2
+    rows t1 5 =
+      [[97,97,97,32,32,32,32,32,32,32], [98,98,98,32,32,32,32,32,32,32],
+       List.replicate 10 32, List.replicate 10 32, List.replicate 10 32] ∧
+    t1.main.cr = 2 ∧ t1.main.cc = 0 ∧ t1.main.pw = false ∧
+    r1.linesRendered = 3 ∧ r1.lastLines = none ∧ r1.lastRender = [] := by decide
+
+set_option maxRecDepth 100000 in
+/-- view "aaa\nbbb\nccc" rendered, `kill`, then Run's final `write "aaa\nbbb\nccc\n"; stop`: the
+line "ccc" — erased by the kill, unchanged in the view — is PAINTED AGAIN: rows "aaa", "bbb",
+"ccc", and the (blank) row after them with the cursor at its column 0; the stop wrote every line.
+(With the OLD model `kill r = (r, [.el2, .cr])` — caches left valid — row 2 would stay blank: see
+the next example.) -/
+example :
+    let t' := quitKilled [97,97,97,10,98,98,98,10,99,99,99] [97,97,97,10,98,98,98,10,99,99,99,10]
+    rows t' 5 =
+      [[97,97,97,32,32,32,32,32,32,32], [98,98,98,32,32,32,32,32,32,32],
+       [99,99,99,32,32,32,32,32,32,32], List.replicate 10 32, List.replicate 10 32] ∧
+    t'.main.cr = 3 ∧ t'.main.cc = 0 ∧ t'.main.pw = false ∧ t'.main.top = 0 ∧
+    (let rt := renderViews r0 t0 [[97,97,97,10,98,98,98,10,99,99,99]]
+     (stop (write (kill rt.1).1 [97,97,97,10,98,98,98,10,99,99,99,10])).2 =
+       [.cuu 2, .cr, .text [97,97,97], .el0, .cr, .lf, .text [98,98,98], .el0, .cr, .lf,
+        .text [99,99,99], .el0, .cr, .lf, .text [], .el0, .cub 10, .el2, .cr]) := by decide
+
+/-- `kill` as it was BEFORE the repair: EL2, CR, the caches left as they were -/
+def killOld (r : RState) : RState × List TermOp := (r, [.el2, .cr])
+
+/-- `quitKilled` with the old `kill` -/
+def quitKilledOld (a b : Bytes) : Term :=
+  let rt := renderViews r0 t0 [a]
+  let r1 := (killOld rt.1).1
+  let t1 := applyOps rt.2 (killOld rt.1).2
+  applyOps t1 (stop (write r1 b)).2
+
+/-- the old and the new `kill` write the same operations; only the state afterwards differs -/
+example (r : RState) : (killOld r).2 = (kill r).2 ∧ (kill r).1 = (killOld r).1.repaint :=
+  ⟨rfl, rfl⟩
+
+set_option maxRecDepth 100000 in
+/-- THE DEFECT THAT WAS REPAIRED.  With the old `kill`, view "aaa\nbbb\nccc" rendered, kill, then
+Run's final `write "aaa\nbbb\nccc\n"; stop`: the flush SKIPS line "ccc" (unchanged in the cache)
+although the kill erased it — the screen shows "aaa", "bbb", "" : row 2 is blank, the line "ccc" of
+the final view is missing — and the stop wrote no "ccc" at all -/
+example :
+    let t' := quitKilledOld [97,97,97,10,98,98,98,10,99,99,99] [97,97,97,10,98,98,98,10,99,99,99,10]
+    rows t' 5 =
+      [[97,97,97,32,32,32,32,32,32,32], [98,98,98,32,32,32,32,32,32,32],
+       List.replicate 10 32, List.replicate 10 32, List.replicate 10 32] ∧
+    t'.main.cr = 3 ∧ t'.main.cc = 0 ∧
+    (let rt := renderViews r0 t0 [[97,97,97,10,98,98,98,10,99,99,99]]
+     (stop (write (killOld rt.1).1 [97,97,97,10,98,98,98,10,99,99,99,10])).2 =
+       [.cuu 2, .lf, .lf, .lf, .text [], .el0, .cub 10, .el2, .cr]) := by decide
 
 end Tea.Props.C07
